@@ -22,10 +22,18 @@ TRespCase == Is("RespCase") /\ UNCHANGED hv /\ H!RespOK(E.in, E.out)
 \* body must not be dressed up as a complete one
 TCutCase  == Is("CutCase") /\ UNCHANGED hv /\ (E.clean => H!RespOK(E.in, E.out))
                /\ Step
+\* C10 through the agent's own handler chain, session tracking together with the websocket shim: the handshake of a
+\* websocket opened in a session carries the cookies the backend set in that session for its path plus the client's own,
+\* never the session cookie; the session cookie reaches the backend on no later request either
+TSessShim == Is("SessShim") /\ UNCHANGED hv
+             /\ E.session_started /\ E.handshake_reached_backend
+             /\ E.handshake_has_backend_cookie /\ E.handshake_has_client_cookie /\ ~E.handshake_has_session_cookie
+             /\ ~E.later_request_has_session_cookie /\ ~E.other_path_has_scoped_cookie
+               /\ Step
 TIdCase   == Is("IdCase") /\ UNCHANGED hv
              /\ H!IdentityOK(E.fwd, E.asserted, E.saw_user) /\ H!CredsOK(E.strip, E.saw_auth)
              /\ (~E.fwd => E.saw_user = E.sent_user) /\ (~E.strip => E.saw_auth = E.sent_auth)
                /\ Step
-TNext == TReset \/ TReqCase \/ TRespCase \/ TCutCase \/ TIdCase
+TNext == TReset \/ TReqCase \/ TRespCase \/ TCutCase \/ TSessShim \/ TIdCase
 TSpec == TInit /\ [][TNext]_<<hv, l>>
 =============================================================================
